@@ -83,6 +83,26 @@ spec fn whole_object_final<R: Reader<Offset = usize>, S: EvaluationStorage<R>>(a
     &&& a.expression_stack@.len() == 0
 }
 
+/// every piece collected so far carries the size its DW_OP_piece / DW_OP_bit_piece gave it
+spec fn sized_only<R: Reader<Offset = usize>, S: EvaluationStorage<R>>(a: Evaluation<R, S>) -> bool {
+    forall|i: int| 0 <= i < a.result@.len() ==> (#[trigger] a.result@[i]).size_in_bits is Some
+}
+
+/// [C07:whole-object-piece-final] the result is either a composite of sized pieces, or ONE whole-object piece with nothing
+/// left to run -- a whole-object piece never coexists with other pieces, remaining operations or pending caller frames
+spec fn pieces_ok<R: Reader<Offset = usize>, S: EvaluationStorage<R>>(a: Evaluation<R, S>) -> bool {
+    sized_only(a) || whole_object_final(a)
+}
+
+/// DWARF 5 2.6.1.2: only DW_OP_piece / DW_OP_bit_piece append to the composite, and the piece they append is sized
+spec fn step_pieces<R: Reader<Offset = usize>, S: EvaluationStorage<R>>(a: Evaluation<R, S>, z: Evaluation<R, S>, r: OperationEvaluationResult<R>) -> bool {
+    if r is Piece {
+        z.result@.len() == a.result@.len() + 1 && z.result@ =~= a.result@.push(z.result@.last()) && z.result@.last().size_in_bits is Some
+    } else {
+        z.result@ == a.result@
+    }
+}
+
 /// the request handed to the caller is the one belonging to the continuation the machine stored
 spec fn request_matches<R: Reader<Offset = usize>>(w: EvaluationWaiting<R>, r: EvaluationResult<R>) -> bool {
     match w {
